@@ -57,6 +57,7 @@ var dropFiles = map[string]bool{
 var knobConsts = map[string]bool{
 	"actor.messageBatchSize":       true,
 	"actor.defaultThroughput":      true,
+	"actor.defaultInboxSize":       true,
 	"remote.streamWriterBatchSize": true,
 }
 
